@@ -10,7 +10,7 @@ from fractions import Fraction
 
 from .. import expr as E, pipeline, refsem, routinegen as G
 from ..compare import close, has_float
-from ..real import walk
+from ..real import evaluate, walk
 from .c01 import gen  # noqa: F401  (same generator family)
 
 LEVEL = "proof"
@@ -92,6 +92,47 @@ def oracle(case, res, extra):
                 res.violation("failing-input", f"a port size at {'.'.join(path) or 'root'} mentions {e}, which is not a top-level input",
                               {"qref": case.qref}, None, None)
                 return
+    # "for every input value", also when the values arrive in STAGES: one input is first replaced by an expression in a fresh symbol,
+    # then the fresh symbol and all other inputs get numbers — the two ends of every connection still agree, and agree with the
+    # compiled size taken at that point
+    names = sorted(n for n in cr.input_params if "#" not in n)
+    if checked and names and case.seed % 2 == 0:
+        a = rng.choice(names)
+        top = {n: Fraction(rng.randint(3, 9)) for n in names}
+        hist = [{a: "kk_ + 3"}, {**{n: int(v) for n, v in top.items() if n != a}, "kk_": int(top[a]) - 3}]
+        try:
+            ev = evaluate(evaluate(cr, hist[0]).routine, hist[1]).routine
+        except Exception as e:
+            res.stats["staged_evaluation_raised_" + type(e).__name__] += 1
+            ev = None
+        if ev is not None:
+            res.stats["staged_evaluations"] += 1
+            for (path, node), (_, node0) in zip(walk(ev), walk(cr)):
+                def size_of2(ep, nd=node):
+                    owner = nd if ep.routine_name is None else nd.children[ep.routine_name]
+                    return owner.ports[ep.port_name].size
+                try:
+                    for s_, t_ in node.connections.items():
+                        a_, b_ = size_of2(s_), size_of2(t_)
+                        va, vb = E.sympy_ev(a_, dict(top), 0), E.sympy_ev(b_, dict(top), 0)
+                        if not close(va, vb, True):
+                            res.violation("failing-input", f"after a staged evaluation the ends of connection {s_.routine_name}.{s_.port_name}->{t_.routine_name}.{t_.port_name} "
+                                          f"at {'.'.join(path) or 'root'} have different sizes", {"qref": case.qref, "history": hist},
+                                          {"source": str(a_), "target": str(b_)}, "equal")
+                            return
+                    for pn, port in node.ports.items():
+                        left = {str(x) for x in getattr(port.size, "free_symbols", ())} & (set(hist[1]) | {a})
+                        if left:
+                            res.violation("failing-input", f"after a staged evaluation the size of port {'.'.join(path) or 'root'}.{pn} still mentions {sorted(left)}, which were assigned numbers",
+                                          {"qref": case.qref, "history": hist}, str(port.size), "a size at the assigned values")
+                            return
+                        got, exp = E.sympy_ev(port.size, dict(top), 0), E.sympy_ev(node0.ports[pn].size, dict(top), 0)
+                        if not close(got, exp, True):
+                            res.violation("failing-input", f"after a staged evaluation the size of port {'.'.join(path) or 'root'}.{pn} is not the compiled size at that point",
+                                          {"qref": case.qref, "history": hist}, {"evaluated": str(port.size), "compiled": str(node0.ports[pn].size)}, exp)
+                            return
+                except (E.Undefined, OverflowError, KeyError):
+                    res.stats["staged_undefined_point"] += 1
     res.stats["port_facts_checked"] += checked
     if checked and feats & {"child->child", "pass-through", "through-port", "depth>=2"}:
         res.nontrivial.append((case.seed, tuple(sorted(feats))))
@@ -119,4 +160,13 @@ def replay(payload):
         for path, node in walk(res.routine):
             for pn, p in node.ports.items():
                 print(".".join(path) or "root", pn, "=", p.size)
+        if payload["input"].get("history"):
+            from ..real import evaluate
+            ev = res.routine
+            for step in payload["input"]["history"]:
+                print("evaluate", step)
+                ev = evaluate(ev, step).routine
+            for path, node in walk(ev):
+                for pn, p in node.ports.items():
+                    print(".".join(path) or "root", pn, "=", p.size)
     return 0
